@@ -169,7 +169,8 @@ TreeFails(e) ==
                     theirs == {e.alone[i].tree : i \in {j \in DOMAIN e.alone :
                                    e.alone[j].tree.k # "none" /\ Verdict(e.alone[j].ty, e.alone[j].val) = "R"}}
                     maybe == {e.alone[i].tree : i \in {j \in DOMAIN e.alone : e.alone[j].tree.k # "none"}}
-                IN IF theirs \subseteq mine /\ mine \subseteq maybe THEN {} ELSE {"child-not-standalone"}
+                    \* (a mapping entry failing on both key and value is reported once: either tree may be the child)
+                IN IF (e.ty.k \in DictKinds \/ theirs \subseteq mine) /\ mine \subseteq maybe THEN {} ELSE {"child-not-standalone"}
            ELSE {})
 
 -----------------------------------------------------------------------------
